@@ -89,7 +89,7 @@ def main():
 
     if mode.startswith("kill"):
         t0 = time.time()
-        while len({x["pid"] for x in seen()}) < 2 and time.time() - t0 < 60 and p.poll() is None:
+        while len({x["pid"] for x in seen()}) < 2 and time.time() - t0 < 30 and p.poll() is None:
             time.sleep(0.01)
         s = seen()
         workers = sorted({x["pid"] for x in s})
@@ -115,17 +115,17 @@ def main():
         res["trackers"] = trackers
         t0 = time.time()
         # definitive end point: the tracker process has terminated (EOF phase over)
-        while trackers and not all(gone(t) for t in trackers) and time.time() - t0 < 60:
+        while trackers and not all(gone(t) for t in trackers) and time.time() - t0 < 30:
             time.sleep(0.01)
         if not trackers or not all(gone(t) for t in trackers):
             res["flags"].append("tracker-unknown-or-still-running-after-60s")
-            while os.listdir(tmpf) and time.time() - t0 < 60:
+            while os.listdir(tmpf) and time.time() - t0 < 30:
                 time.sleep(0.05)
         res["left"] = sorted(os.listdir(tmpf))
         res["waited_s"] = round(time.time() - t0, 2)
     else:
         try:
-            out, _ = p.communicate(timeout=180)
+            out, _ = p.communicate(timeout=60)
         except subprocess.TimeoutExpired:
             p.kill()
             out = b""
@@ -140,7 +140,7 @@ def main():
         res["seen"] = seen()
         if w and w.get("tracker"):
             t0 = time.time()
-            while not gone(w["tracker"]) and time.time() - t0 < 90:
+            while not gone(w["tracker"]) and time.time() - t0 < 30:
                 time.sleep(0.02)
             if not gone(w["tracker"]):
                 res["flags"].append("tracker-still-running-after-90s")
